@@ -34,6 +34,9 @@ var (
 	partFlag = flag.String("part", "all", "which parts to run: all | 1 | 2")
 	verbose  = flag.Bool("v", false, "print per-program details")
 	keepFlag = flag.Bool("keep", false, "keep the scratch directory")
+	semFile  = flag.String("semfile", "", "debug: compile, execute and evaluate this single program (part 2 pipeline) and exit")
+	semRsize = flag.Int("semrsize", 8, "register size for -semfile")
+	semCount = flag.Bool("semcount", false, "debug: print the number of programs part 2 would enumerate and exit")
 )
 
 func fatalHarness(format string, a ...any) {
@@ -42,6 +45,12 @@ func fatalHarness(format string, a ...any) {
 }
 
 func main() {
+	for _, a := range os.Args[1:] {
+		if a == "-semworker" {
+			semWorkerMain()
+			return
+		}
+	}
 	run := vlib.Start("C12", "model_checking")
 	scratch, err := os.MkdirTemp("", "verif-c12-")
 	if err != nil {
@@ -69,6 +78,15 @@ func main() {
 	if len(bt.Mutated) > 0 {
 		sort.Strings(bt.Mutated)
 		run.Set("overlay_files", bt.Mutated)
+	}
+	if *semFile != "" {
+		b, err := os.ReadFile(*semFile)
+		if err != nil {
+			fatalHarness("%v", err)
+		}
+		semOne(bt, semReplay{Rsize: *semRsize, Source: string(b)})
+		cleanup()
+		return
 	}
 	if run.Replay != "" {
 		doReplay(run, bt)
